@@ -89,6 +89,19 @@ class C05(Prop):
                            G.op_setenv(ci, upd), G.op_newconfig(dir=b"emptydir/__snapshots__", upd=opt), mk, G.op_end(b"TestEmpty"),
                            {"op": "dumpfs"}, {"op": "clean", "sort": True, "count": 1, "colour": False}, {"op": "dumpfs"}]
                     cases.append({"ci": False, "updvar": "unset", "colour": False, "ops": ops, "meta": {"cell": None, "readonly_clean": [ci, upd, api]}})
+        # ... and "Clean deletes obsolete items ONLY when UPDATE_SNAPS is `true` or `clean`": an addressed file whose live entries
+        # are out of order and that holds an obsolete entry, Clean WITH sorting in every mode that may not delete - sorting may
+        # reorder the entries, none may disappear
+        from C09 import frame
+        for ci in (True, False):
+            for upd in ("unset", "other", "true", "clean"):
+                if not ci and upd in ("true", "clean"):
+                    continue
+                used = frame(b"TestB - 1", b"b") + frame(b"TestGone - 1", b"stale") + frame(b"TestA - 1", b"a")
+                ops = [G.op_putfile(b"sd/used.snap", used), G.op_setenv(ci, upd), G.op_newconfig(dir=b"sd", fn=b"used"),
+                       G.op_match_snap(1, b"TestA", [b"a"]), G.op_end(b"TestA"), G.op_match_snap(1, b"TestB", [b"b"]), G.op_end(b"TestB"),
+                       {"op": "dumpfs"}, {"op": "clean", "sort": True, "count": 1, "colour": False}, {"op": "dumpfs"}]
+                cases.append({"ci": False, "updvar": "unset", "colour": False, "ops": ops, "meta": {"cell": None, "readonly_sort": [ci, upd]}})
         return cases
 
     def extra_coverage(self):
@@ -210,6 +223,19 @@ class C05(Prop):
                 fails.append({"msg": "Clean in a read-only mode %s changed the directories: removed %s created %s" % (
                     case["meta"]["readonly_clean"], [unhx(x) for x in sorted(d0 - d1)], [unhx(x) for x in sorted(d1 - d0)])})
             return fails
+        if case["meta"].get("readonly_sort"):
+            from C09 import parse_entries
+            fs_ = [r for r in results if r[0] == "fs"]
+            if len(fs_) != 2:
+                return self.skip("guard")
+            key = hx(b"/S/sd/used.snap")
+            b_, a_ = fs_[0][2].get(key), fs_[1][2].get(key)
+            if b_ is None:
+                return self.skip("guard")
+            if a_ is None or sorted(parse_entries(unhx(a_))) != sorted(parse_entries(unhx(b_))):
+                return [{"msg": "Clean with sorting in a mode that may not delete %s: the entries of the addressed file were %s, are %s" % (
+                    case["meta"]["readonly_sort"], [i for i, _ in parse_entries(unhx(b_))], [i for i, _ in parse_entries(unhx(a_ or "-"))])}]
+            return []
         if not cell:
             return self.skip("guard")
         ci, opt, upd, api, state = cell
